@@ -56,6 +56,11 @@ pub struct Case {
     pub listeners: Vec<LKind>,
     pub shutdown_timeout_s: u64,
     pub ops: Vec<Op>,
+    /// how listeners are registered with the builder: 0 = listen()/listen_uds() with a socket bound
+    /// by the harness, 1 = bind()/bind_uds() by address, 2 = bind() with two addresses (two sockets,
+    /// two tokens, one service factory) for TCP
+    #[serde(default)]
+    pub bind_mode: u8,
 }
 
 #[derive(Clone, Copy, Debug, PartialEq, Eq)]
@@ -207,7 +212,28 @@ struct Client {
 
 enum LAddr {
     Tcp(std::net::SocketAddr),
+    /// one logical listener bound to two addresses (`bind` with an address list)
+    Tcp2(std::net::SocketAddr, std::net::SocketAddr, std::cell::Cell<bool>),
     Uds(std::path::PathBuf),
+}
+
+impl LAddr {
+    /// the address the next TCP client should use (alternates for a two-address listener)
+    fn tcp(&self) -> Option<std::net::SocketAddr> {
+        match self {
+            LAddr::Tcp(a) => Some(*a),
+            LAddr::Tcp2(a, b, flip) => {
+                flip.set(!flip.get());
+                Some(if flip.get() { *a } else { *b })
+            }
+            LAddr::Uds(_) => None,
+        }
+    }
+}
+
+fn free_port() -> std::io::Result<std::net::SocketAddr> {
+    let l = std::net::TcpListener::bind("127.0.0.1:0")?;
+    l.local_addr()
 }
 
 fn block_on<F: Future>(f: F) -> F::Output {
@@ -348,28 +374,52 @@ fn run_once(c: &Case, prop: Prop) -> Result<Obs, (Fail, bool)> {
     let mut fds = vec![];
     let mut tcp = vec![];
     let mut uds = vec![];
+    // listeners registered by address (bind / bind_uds): (logical index, addresses) / (index, path)
+    let mut tcp_bind: Vec<(usize, Vec<std::net::SocketAddr>)> = vec![];
+    let mut uds_bind: Vec<(usize, std::path::PathBuf)> = vec![];
+    let needs_fd = c.ops.iter().any(|o| matches!(o, Op::Inject { .. } | Op::BackoffBusy { .. }));
+    let bind_mode = if needs_fd { 0 } else { c.bind_mode % 3 };
     for (i, k) in c.listeners.iter().take(nl).enumerate() {
         match k {
-            LKind::Tcp => {
+            LKind::Tcp if bind_mode == 0 => {
                 let l = std::net::TcpListener::bind("127.0.0.1:0").map_err(|e| (Fail::new("harness/setup", format!("{e}")), false))?;
                 addrs.push(LAddr::Tcp(l.local_addr().unwrap()));
                 fds.push(l.as_raw_fd());
                 tcp.push((i, l));
             }
+            LKind::Tcp => {
+                let a = free_port().map_err(|e| (Fail::new("harness/setup", format!("{e}")), false))?;
+                if bind_mode == 2 {
+                    let b = free_port().map_err(|e| (Fail::new("harness/setup", format!("{e}")), false))?;
+                    addrs.push(LAddr::Tcp2(a, b, std::cell::Cell::new(false)));
+                    tcp_bind.push((i, vec![a, b]));
+                } else {
+                    addrs.push(LAddr::Tcp(a));
+                    tcp_bind.push((i, vec![a]));
+                }
+                fds.push(-1);
+            }
             LKind::Uds => {
                 let p = std::env::temp_dir().join(format!("verif-l4-{}-{}.sock", std::process::id(), UDS_SEQ.fetch_add(1, Ordering::SeqCst)));
                 let _ = std::fs::remove_file(&p);
-                let l = std::os::unix::net::UnixListener::bind(&p).map_err(|e| (Fail::new("harness/setup", format!("{e}")), false))?;
+                if bind_mode == 0 {
+                    let l = std::os::unix::net::UnixListener::bind(&p).map_err(|e| (Fail::new("harness/setup", format!("{e}")), false))?;
+                    fds.push(l.as_raw_fd());
+                    uds.push((i, l));
+                } else {
+                    fds.push(-1);
+                    uds_bind.push((i, p.clone()));
+                }
                 addrs.push(LAddr::Uds(p));
-                fds.push(l.as_raw_fd());
-                uds.push((i, l));
             }
         }
     }
-    for fd in &fds {
+    for fd in fds.iter().filter(|fd| **fd >= 0) {
         hv::clear_injected(*fd);
         hv::take_consumed_injections(*fd);
     }
+    // one service instance per worker and socket (a two-address listener has two sockets)
+    let nsock: usize = addrs.iter().map(|a| if matches!(a, LAddr::Tcp2(..)) { 2 } else { 1 }).sum();
     let (htx, hrx) = mpsc::channel::<Result<ServerHandle, String>>();
     let server_done = Arc::new(AtomicBool::new(false));
     let sd = server_done.clone();
@@ -418,6 +468,44 @@ fn run_once(c: &Case, prop: Prop) -> Result<Obs, (Fail, bool)> {
                         }
                     };
                 }
+                for (i, list) in tcp_bind {
+                    let w3 = w2.clone();
+                    b = match b.bind(format!("l{i}"), &list[..], move || {
+                        let w4 = w3.clone();
+                        fn_factory(move || {
+                            let w5 = w4.clone();
+                            async move {
+                                w5.factory_count.fetch_add(1, Ordering::SeqCst);
+                                Ok::<_, ()>(EchoSvc { listener: i, w: w5 })
+                            }
+                        })
+                    }) {
+                        Ok(b) => b,
+                        Err(e) => {
+                            let _ = htx.send(Err(format!("bind: {e}")));
+                            return;
+                        }
+                    };
+                }
+                for (i, path) in uds_bind {
+                    let w3 = w2.clone();
+                    b = match b.bind_uds(format!("l{i}"), &path, move || {
+                        let w4 = w3.clone();
+                        fn_factory(move || {
+                            let w5 = w4.clone();
+                            async move {
+                                w5.factory_count.fetch_add(1, Ordering::SeqCst);
+                                Ok::<_, ()>(EchoSvc { listener: i, w: w5 })
+                            }
+                        })
+                    }) {
+                        Ok(b) => b,
+                        Err(e) => {
+                            let _ = htx.send(Err(format!("bind_uds: {e}")));
+                            return;
+                        }
+                    };
+                }
                 let srv = b.run();
                 let _ = htx.send(Ok(srv.handle()));
                 let _ = srv.await;
@@ -435,10 +523,10 @@ fn run_once(c: &Case, prop: Prop) -> Result<Obs, (Fail, bool)> {
     // has been handed out. Wait until every worker has created its services.
     {
         let t0 = Instant::now();
-        while w.factory_count.load(Ordering::SeqCst) < workers * nl && t0.elapsed() < Duration::from_secs(20) {
+        while w.factory_count.load(Ordering::SeqCst) < workers * nsock && t0.elapsed() < Duration::from_secs(20) {
             thread::sleep(Duration::from_millis(1));
         }
-        if w.factory_count.load(Ordering::SeqCst) < workers * nl {
+        if w.factory_count.load(Ordering::SeqCst) < workers * nsock {
             return Err((Fail::new("harness/setup", "workers did not start"), false));
         }
     }
@@ -462,6 +550,11 @@ fn run_once(c: &Case, prop: Prop) -> Result<Obs, (Fail, bool)> {
         backoff_until: vec![None; nl],
         busy_until: None,
     };
+    match bind_mode {
+        1 => r.label("registered-by-address"),
+        2 => r.label("registered-by-address-list"),
+        _ => {}
+    }
     let mut next_id = 0u32;
     let mut stop_checked = false;
     for op in &c.ops {
@@ -475,11 +568,11 @@ fn run_once(c: &Case, prop: Prop) -> Result<Obs, (Fail, bool)> {
                 }
                 let l = vcore::pick(l, nl);
                 let sock = match &r.addrs[l] {
-                    LAddr::Tcp(a) => std::net::TcpStream::connect_timeout(a, BOUND).map(|s| {
+                    LAddr::Uds(p) => std::os::unix::net::UnixStream::connect(p).map(Sock::Uds),
+                    t => std::net::TcpStream::connect_timeout(&t.tcp().unwrap(), BOUND).map(|s| {
                         let _ = socket2::SockRef::from(&s).set_linger(Some(Duration::ZERO));
                         Sock::Tcp(s)
                     }),
-                    LAddr::Uds(p) => std::os::unix::net::UnixStream::connect(p).map(Sock::Uds),
                 };
                 match sock {
                     Ok(mut s) => {
@@ -491,8 +584,8 @@ fn run_once(c: &Case, prop: Prop) -> Result<Obs, (Fail, bool)> {
                     }
                     Err(e) => {
                         let kind = match &r.addrs[l] {
-                            LAddr::Tcp(_) => "tcp",
                             LAddr::Uds(_) => "uds",
+                            _ => "tcp",
                         };
                         r.flag(Prop::C05, "C05/not-connectable", format!("connect to {} listener {} failed with {:?} although the server has not been stopped (paused={})", kind, l, e.kind(), r.paused), false);
                     }
@@ -558,7 +651,7 @@ fn run_once(c: &Case, prop: Prop) -> Result<Obs, (Fail, bool)> {
                 r.refresh();
                 let before = r.w.factory_count.load(Ordering::SeqCst);
                 if !r.paused && r.clients.len() < 12 && r.held() < r.workers * r.limit && r.waiting() == 0 {
-                    if let LAddr::Tcp(a) = &r.addrs[0] {
+                    if let Some(a) = &r.addrs[0].tcp() {
                         if let Ok(mut s) = std::net::TcpStream::connect_timeout(a, BOUND) {
                             let _ = socket2::SockRef::from(&s).set_linger(Some(Duration::ZERO));
                             let id = next_id;
@@ -579,11 +672,11 @@ fn run_once(c: &Case, prop: Prop) -> Result<Obs, (Fail, bool)> {
                         thread::sleep(Duration::from_millis(30));
                         // a replacement worker re-creates its services: exactly one instantiation per listener and fault
                         let t1 = Instant::now();
-                        while r.w.factory_count.load(Ordering::SeqCst) < before + nl && t1.elapsed() < BOUND {
+                        while r.w.factory_count.load(Ordering::SeqCst) < before + nsock && t1.elapsed() < BOUND {
                             thread::sleep(Duration::from_millis(5));
                             // the fault is discovered by the next dispatch: keep one probe client going
                             if t1.elapsed() > Duration::from_millis(100) && r.clients.len() < 12 && r.waiting() == 0 {
-                                if let LAddr::Tcp(a) = &r.addrs[0] {
+                                if let Some(a) = &r.addrs[0].tcp() {
                                     if let Ok(mut s) = std::net::TcpStream::connect_timeout(a, BOUND) {
                                         let _ = socket2::SockRef::from(&s).set_linger(Some(Duration::ZERO));
                                         let id = next_id;
@@ -597,8 +690,8 @@ fn run_once(c: &Case, prop: Prop) -> Result<Obs, (Fail, bool)> {
                         }
                         r.settle(true);
                         let now = r.w.factory_count.load(Ordering::SeqCst);
-                        if now > before + nl {
-                            r.flag(Prop::C08, "C08/too-many-replacements", format!("one worker fault led to {} service instantiations ({} listeners)", now - before, nl), false);
+                        if now > before + nsock {
+                            r.flag(Prop::C08, "C08/too-many-replacements", format!("one worker fault led to {} service instantiations ({} listening sockets)", now - before, nsock), false);
                         }
                     } else {
                         r.w.panic_next.store(false, Ordering::SeqCst);
@@ -614,7 +707,7 @@ fn run_once(c: &Case, prop: Prop) -> Result<Obs, (Fail, bool)> {
                     continue;
                 }
                 let l = vcore::pick(l, nl);
-                let LAddr::Tcp(a) = &r.addrs[l] else { continue };
+                let Some(a) = &r.addrs[l].tcp() else { continue };
                 let Ok(mut s) = std::net::TcpStream::connect_timeout(a, BOUND) else { continue };
                 let _ = socket2::SockRef::from(&s).set_linger(Some(Duration::ZERO));
                 let ms = 2500 + (ms as u64 % 1000);
@@ -640,11 +733,11 @@ fn run_once(c: &Case, prop: Prop) -> Result<Obs, (Fail, bool)> {
                 hv::clear_injected(r.fds[l]);
                 hv::inject_accept_error(r.fds[l], Some(libc::EMFILE), std::io::ErrorKind::Other);
                 let sock = match &r.addrs[l] {
-                    LAddr::Tcp(a) => std::net::TcpStream::connect_timeout(a, BOUND).map(|s| {
+                    LAddr::Uds(p) => std::os::unix::net::UnixStream::connect(p).map(Sock::Uds),
+                    t => std::net::TcpStream::connect_timeout(&t.tcp().unwrap(), BOUND).map(|s| {
                         let _ = socket2::SockRef::from(&s).set_linger(Some(Duration::ZERO));
                         Sock::Tcp(s)
                     }),
-                    LAddr::Uds(p) => std::os::unix::net::UnixStream::connect(p).map(Sock::Uds),
                 };
                 let Ok(mut sock) = sock else { continue };
                 let id = next_id;
@@ -776,7 +869,7 @@ fn run_once(c: &Case, prop: Prop) -> Result<Obs, (Fail, bool)> {
                 let calls_before = r.w.calls.lock().unwrap().len();
                 let mut late = vec![];
                 for l in 0..nl {
-                    if let LAddr::Tcp(a) = &r.addrs[l] {
+                    if let Some(a) = &r.addrs[l].tcp() {
                         if let Ok(mut s) = std::net::TcpStream::connect_timeout(a, Duration::from_millis(300)) {
                             let _ = socket2::SockRef::from(&s).set_linger(Some(Duration::ZERO));
                             let _ = s.write_all(&9999u32.to_le_bytes());
@@ -851,7 +944,7 @@ fn run_once(c: &Case, prop: Prop) -> Result<Obs, (Fail, bool)> {
             let _ = t.join();
         }
     }
-    for fd in &r.fds {
+    for fd in r.fds.iter().filter(|fd| **fd >= 0) {
         hv::clear_injected(*fd);
         hv::take_consumed_injections(*fd);
     }
@@ -888,8 +981,8 @@ pub mod gen {
 
     /// C04: unsaturated workers, every connection settled before the next (hand-over)
     pub fn c04_strategy() -> impl Strategy<Value = Case> {
-        (2usize..4, prop::collection::vec(prop::sample::select(vec![LKind::Tcp, LKind::Tcp, LKind::Uds]), 1..3), prop::collection::vec((any::<u16>(), prop::option::weighted(0.3, any::<u16>())), 3..11))
-            .prop_map(|(workers, listeners, steps)| {
+        (2usize..4, prop::collection::vec(prop::sample::select(vec![LKind::Tcp, LKind::Tcp, LKind::Uds]), 1..3), prop::collection::vec((any::<u16>(), prop::option::weighted(0.3, any::<u16>())), 3..11), 0u8..3)
+            .prop_map(|(workers, listeners, steps, bind_mode)| {
                 let mut ops = vec![];
                 for (l, rel) in steps {
                     ops.push(Op::Connect { l });
@@ -898,7 +991,7 @@ pub mod gen {
                         ops.push(Op::Release { k });
                     }
                 }
-                Case { workers, limit: 12, listeners, shutdown_timeout_s: 1, ops }
+                Case { workers, limit: 12, listeners, shutdown_timeout_s: 1, ops, bind_mode }
             })
     }
 
@@ -958,8 +1051,8 @@ pub mod gen {
             Just(None).boxed()
         };
         let kinds = if p.uds { vec![LKind::Tcp, LKind::Tcp, LKind::Uds] } else { vec![LKind::Tcp] };
-        (1usize..4, 1usize..=p.max_limit, prop::collection::vec(prop::sample::select(kinds), 1..3), prop::sample::select(vec![1u64, 2]), body, stop, prop::bool::weighted(0.2))
-            .prop_map(|(workers, limit, listeners, shutdown_timeout_s, body, stop, pause_before_stop)| {
+        (1usize..4, 1usize..=p.max_limit, prop::collection::vec(prop::sample::select(kinds), 1..3), prop::sample::select(vec![1u64, 2]), body, stop, prop::bool::weighted(0.2), 0u8..3)
+            .prop_map(|(workers, limit, listeners, shutdown_timeout_s, body, stop, pause_before_stop, bind_mode)| {
                 let mut ops: Vec<Op> = body.into_iter().flatten().collect();
                 if let Some(s) = stop {
                     ops.push(Op::Settle);
@@ -968,7 +1061,7 @@ pub mod gen {
                     }
                     ops.push(s);
                 }
-                Case { workers, limit, listeners, shutdown_timeout_s, ops }
+                Case { workers, limit, listeners, shutdown_timeout_s, ops, bind_mode }
             })
     }
 }
